@@ -8,7 +8,7 @@ CONSTANTS
   MakeModes <- BothBool
   MaxFaults = 2
   AsBuiltD8 = FALSE
-  SigOnMake <- SigSome
+  SigOnMake <- SigNever
   Hoisted = FALSE
   GenMode = FALSE
   GenLen = 0
